@@ -1,6 +1,7 @@
 import BevySyncModel.Proofs.EntDel
 import BevySyncModel.Generated.Filter
 import BevySyncModel.Generated.Ent
+import BevySyncModel.Generated.Snap
 /-! # C01 — every peer converges to the same set of synchronized entities
 
 One uuid per slice (`Slice/Ent.lean`): the uuid is drawn once by `created` on the origin and no action
@@ -29,6 +30,13 @@ guard and both handlers fill both maps at once; the host relays both messages at
 theorem C01_handlers_tie :
     Generated.entDeleteHandlersNamedEntityOnly = true ∧ Generated.entSpawnHandlers = true ∧
     Generated.entRemovedDetectors = true := by decide
+
+/-- (tie) a joining client's snapshot lists an entity only through the host's tracker maps (`entity_to_uuid`), spawn first —
+an entity whose `EntityDelete` the host has already handled (maps cleaned at once, despawn deferred) is not resurrected
+on the joiner; and the client ignores messages about uuids it does not know (regenerated from `full_sync` and the
+client receiver) -/
+theorem C01_snapshot_tie :
+    Generated.snapSpawnBeforeComponents = true ∧ Generated.snapClientIgnoresUnknownEntity = true := by decide
 
 /-- **C01, entity marked on the host** — before or after any client connected (a client that is not yet
 in `clients` simply is not there; joining later is C03): for every number of clients, every interleaving
